@@ -5,6 +5,7 @@ package datagen
 import (
 	"math"
 	"sort"
+	"strings"
 	"time"
 
 	"pgregory.net/rapid"
@@ -383,6 +384,25 @@ func GenRecs(t *rapid.T, s Schema, maxN int, distinctTS bool) []model.Rec {
 			}
 			r.Line = genBS(obj.Render())
 			r.Doc = &model.Doc{Format: "json", JSON: &obj}
+			if len(obj.Obj) > 0 && rapid.IntRange(0, 9).Draw(t, "cut-in-first-value") == 0 {
+				// A document cut inside the value of its first member (a writer that died, a line
+				// limit): nothing of it can be extracted, the line is kept and flagged. What a stage
+				// keeps in mind from such a line must not reach the next one.
+				first := obj.Obj[0]
+				head := "{" + (model.JV{K: "str", S: first.Key}).Render() + ":"
+				val := first.Val.Render()
+				k := 0
+				switch first.Val.K {
+				case "str", "bool", "null":
+					k = rapid.IntRange(0, len(val)-1).Draw(t, "cut-at")
+				case "obj", "arr":
+					k = rapid.IntRange(0, min(2, len(val)-1)).Draw(t, "cut-at")
+				}
+				if strings.HasPrefix(string(r.Line), head) {
+					r.Line = genBS(head + val[:k])
+					r.Doc = &model.Doc{Format: "json", JSON: &obj, Malformed: true}
+				}
+			}
 		case s.Format == "logfmt":
 			doc := &model.Doc{Format: "logfmt"}
 			line := ""
